@@ -1,4 +1,5 @@
 import Rspirv.Model.LoadBytes
+import Rspirv.Model.BuilderHand
 import Rspirv.Generated.Operands
 import Rspirv.Generated.Extracted
 import Rspirv.Generated.Grammar
@@ -82,5 +83,24 @@ def theLiftTables : LiftTables :=
     nInt := nameCode "Int", nFloat := nameCode "Float", nWidth := nameCode "width", nSignedness := nameCode "signedness"
     nFpEncoding := nameCode "floating_point_encoding", nFunctionControl := nameCode "function_control"
     nCapability := nameCode "capability" }
+
+open Rspirv.Generated.Operands in
+def theBTables : BTables :=
+  { opFunction := op_Function, opFunctionEnd := op_FunctionEnd, opFunctionParameter := op_FunctionParameter
+    opLabel := op_Label, vFunctionControl := v_FunctionControl, vIdRef := v_IdRef
+    magic := Rspirv.Generated.Spirv.const_MAGIC_NUMBER
+    defaultVersion := Rspirv.Generated.Spirv.const_MAJOR_VERSION * 65536 + Rspirv.Generated.Spirv.const_MINOR_VERSION * 256 }
+
+open Rspirv.Generated.Operands in
+def theHTables : HTables :=
+  { opCapability := op_Capability, opExtension := op_Extension, opExtInstImport := op_ExtInstImport
+    opMemoryModel := op_MemoryModel, opEntryPoint := op_EntryPoint, opExecutionMode := op_ExecutionMode
+    opExecutionModeId := op_ExecutionModeId, opExtInst := op_ExtInst, opLine := op_Line, opNoLine := op_NoLine
+    opDecorationGroup := op_DecorationGroup, opString := op_String, opTypeForwardPointer := op_TypeForwardPointer
+    opTypePointer := op_TypePointer, opTypeOpaque := op_TypeOpaque, opConstant := op_Constant
+    opSpecConstant := op_SpecConstant, opVariable := op_Variable, opUndef := op_Undef
+    vCapability := v_Capability, vAddressingModel := v_AddressingModel, vMemoryModel := v_MemoryModel
+    vExecutionModel := v_ExecutionModel, vExecutionMode := v_ExecutionMode, vStorageClass := v_StorageClass
+    vIdRef := v_IdRef, vLit32 := v_LiteralBit32, vExtInstInteger := v_LiteralExtInstInteger }
 
 end Rspirv.Instances
